@@ -34,73 +34,28 @@ def check_reader(cfg, w, rep, lf):
 
     # ---- (a) trust gate: JSON is parsed only after HASH_ENTRY(payload) == stored hash, both from the same 2-field split ----
     payload = prog.resolve_op(body, ft.args[0], IDENT, fblk.i)
-    gate = None
-    why = "no comparison of HASH_ENTRY(payload) with the stored hash guards the JSON parse"
-    for b in body.blocks:
-        tu = b.term
-        if b.cleanup or b.i not in cf.live() or tu.k != "switch" or tu.discr.place is None or tu.j.get("discr_ty") != "bool":
-            continue
-        for o in prog.resolve_pl(body, tu.discr.place, IDENT):
-            if o.kind != "call" or o.callee is None or o.callee.path != "std::cmp::PartialEq::eq":
-                continue
-            sides = [prog.resolve_op(body, a, IDENT, o.blk) for a in o.term.args]
-            for hs, st in ((sides[0], sides[1]), (sides[1], sides[0])):
-                # hs: HASH_ENTRY(x) call ; st: stored hash
-                hcalls = [x for x in hs if x.kind == "call" and prog.callee_fn(x.term) is not None
-                          and R.hash_fns.get(prog.callee_fn(x.term).path) == "sha256" and not x.path]
-                if len(hcalls) != len(hs) or not hcalls:
-                    continue
-                hx = prog.resolve_op(body, hcalls[0].term.args[0], IDENT, hcalls[0].blk)
-                if hx != payload:
-                    why = "the checksum is computed over %s but %s is parsed" % (sorted(map(repr, hx))[:1], sorted(map(repr, payload))[:1])
-                    continue
-                f_payload = _split_field(payload)
-                f_hash = _split_field(st)
-                if f_payload is None or f_hash is None or f_payload[0] != f_hash[0] or (f_hash[1], f_payload[1]) != (0, 1):
-                    why = "stored hash and payload are not fields 0 and 1 of the same tab-split of the line"
-                    continue
-                gate = Gate(body, (b.i, switch_target(tu, 1)), "hash_entry(fields[1]) == fields[0]", o.blk)
-    if gate is None:
-        rep.violation("a-gate:%s" % key, "bucket reader `%s`: %s" % (short(lf.path), why), loc=span_str(ft.span), config=cfg, rule="a-trust-gate")
+    helper = _validating_helper(prog, body, payload)
+    if helper is None:
+        _trust_gate(cfg, w, rep, lf, body, payload, [fblk.i], span_str(ft.span), "parse a record's JSON")
     else:
-        bad = unreachable_without(prog, body, [gate], [fblk.i])
-        if bad:
-            rep.violation("a-bypass:%s" % key, "bucket reader `%s` can parse a record's JSON without its checksum having matched" % short(lf.path),
-                          loc=span_str(ft.span), config=cfg, rule="a-trust-gate", witness=witness_str(body, bad[0][1]))
-        else:
-            rep.ob(cfg, "a-trust-gate", key, "`%s` parses JSON only on the true edge of SHA-256-hex(fields[1]) == fields[0]" % short(lf.path))
-        # exactly two fields, split on a tab
-        lg = None
-        for b in body.blocks:
-            tu = b.term
-            if b.cleanup or tu.k != "switch" or tu.discr.place is None:
-                continue
-            for o in prog.resolve_pl(body, tu.discr.place, IDENT):
-                if o.kind == "binop" and o.info.j["op"] == "Eq":
-                    vals = []
-                    for x in o.info.ops:
-                        for y in prog.resolve_op(body, x, IDENT, o.blk):
-                            vals.append(y)
-                    has2 = any(y.kind == "const" and y.info.const_val == 2 for y in vals)
-                    haslen = any(y.kind == "unop" and y.info.j["op"] == "PtrMetadata" for y in vals) or \
-                        any(y.kind == "call" and y.callee is not None and y.callee.path.endswith("::len") for y in vals)
-                    if has2 and haslen:
-                        lg = Gate(body, (b.i, switch_target(tu, 1)), "field count == 2", b.i)
-        if lg is not None and not unreachable_without(prog, body, [lg], [fblk.i]):
-            rep.ob(cfg, "a-two-fields", key, "`%s` requires exactly two tab-separated fields" % short(lf.path))
-        else:
-            rep.violation("a-fields:%s" % key, "bucket reader `%s` does not require a line to have exactly two fields" % short(lf.path),
+        # the payload is what a private helper hands back in Some(..): the reader must parse only on the Some arm, and the
+        # helper must hand back a payload only through the checksum gate (same clauses, one call deeper)
+        g, hcalls = helper
+        some_gates = match_gates(prog, body, lambda o: o.kind == "call" and any(o.term is hc.term for hc in hcalls) and not o.path, "Some")
+        if not some_gates or unreachable_without(prog, body, some_gates, [fblk.i]):
+            rep.violation("a-bypass:%s" % key, "bucket reader `%s` can parse a line that its validating helper `%s` rejected" % (short(lf.path), short(g.path)),
                           loc=span_str(ft.span), config=cfg, rule="a-trust-gate")
-        sep = None
-        for b, blk, t in prog.call_sites(lf):
-            if t.callee is not None and t.callee.path == "core::str::<impl str>::split" and len(t.args) > 1 and t.args[1].is_const:
-                sep = t.args[1].const_val
-        if sep == "\t":
-            rep.ob(cfg, "a-separator", key, "fields are split on TAB")
+        gb = g.body
+        somes = []
+        for rd in ret_defs(prog, gb):
+            if rd.cls == "success":
+                somes.append(rd.blk)
+        pay_g = prog.resolve_lifted(gb, 0, (("v", "Some"), ("f", "0")), IDENT)
+        if not somes or not pay_g:
+            rep.violation("a-gate:%s" % key, "UNRECOGNISED-IDIOM: validating helper `%s` of `%s` does not return Some(payload)" % (short(g.path), short(lf.path)),
+                          loc=gb.loc(), config=cfg, rule="a-trust-gate")
         else:
-            rep.violation("a-separator:%s" % key, "bucket reader `%s` splits fields on %r instead of TAB" % (short(lf.path), sep),
-                          loc=body.loc(), config=cfg, rule="a-trust-gate")
-
+            _trust_gate(cfg, w, rep, lf, gb, pay_g, somes, gb.loc(), "hand back a payload", via=g)
     # ---- (b) skip and continue ----
     loops = [(h, bl) for h, bl in cf.loops() if fblk.i in bl]
     if not loops:
@@ -230,3 +185,99 @@ def _invalid_data_continue(prog, body, loop_blocks):
                     if t_true in loop_blocks:
                         return True
     return False
+
+
+def _validating_helper(prog, body, payload):
+    """If every leaf of the parsed payload is the Some payload of a call to one private crate function, return
+    (that function, the call origins)."""
+    if not payload:
+        return None
+    gs = set()
+    for o in payload:
+        if o.kind != "call" or o.callee is None or tuple(o.path) != (("v", "Some"), ("f", "0")):
+            return None
+        g = prog.callee_fn(o.term)
+        if g is None or g.outer.reachable:
+            return None
+        gs.add(g.path)
+    if len(gs) != 1:
+        return None
+    return prog.fns[next(iter(gs))], list(payload)
+
+
+def _trust_gate(cfg, w, rep, lf, body, payload, targets, loc, what, via=None):
+    """In `body`: the blocks `targets` (the JSON parse, or a helper's Some(payload) returns) are reachable only through the
+    equal edge of HASH_ENTRY(payload) ==/!= stored hash, where payload and stored hash are fields 1 and 0 of the same
+    TAB-split of the line, and the split has exactly two fields."""
+    prog = w.prog
+    R = w.roles
+    key = fn_key(lf)
+    cf = prog.cfg(body)
+    where = "`%s`" % short(lf.path) + (" (through `%s`)" % short(via.path) if via is not None else "")
+    gate = None
+    why = "no comparison of HASH_ENTRY(payload) with the stored hash guards it"
+    for b in body.blocks:
+        tu = b.term
+        if b.cleanup or b.i not in cf.live() or tu.k != "switch" or tu.discr.place is None or tu.j.get("discr_ty") != "bool":
+            continue
+        for o in prog.resolve_pl(body, tu.discr.place, IDENT):
+            if o.kind != "call" or o.callee is None or o.callee.path not in ("std::cmp::PartialEq::eq", "std::cmp::PartialEq::ne"):
+                continue
+            equal_edge = 1 if o.callee.path.endswith("::eq") else 0
+            sides = [prog.resolve_op(body, a, IDENT, o.blk) for a in o.term.args]
+            for hs, st in ((sides[0], sides[1]), (sides[1], sides[0])):
+                # hs: HASH_ENTRY(x) call ; st: stored hash
+                hcalls = [x for x in hs if x.kind == "call" and prog.callee_fn(x.term) is not None
+                          and R.hash_fns.get(prog.callee_fn(x.term).path) == "sha256" and not x.path]
+                if len(hcalls) != len(hs) or not hcalls:
+                    continue
+                hx = prog.resolve_op(body, hcalls[0].term.args[0], IDENT, hcalls[0].blk)
+                if hx != payload:
+                    why = "the checksum is computed over %s but %s is used" % (sorted(map(repr, hx))[:1], sorted(map(repr, payload))[:1])
+                    continue
+                f_payload = _split_field(payload)
+                f_hash = _split_field(st)
+                if f_payload is None or f_hash is None or f_payload[0] != f_hash[0] or (f_hash[1], f_payload[1]) != (0, 1):
+                    why = "UNRECOGNISED-IDIOM: stored hash and payload are not fields 0 and 1 of the same tab-split of the line"
+                    continue
+                gate = Gate(body, (b.i, switch_target(tu, equal_edge)), "hash_entry(fields[1]) == fields[0]", o.blk)
+    if gate is None:
+        rep.violation("a-gate:%s" % key, "bucket reader %s: %s" % (where, why), loc=loc, config=cfg, rule="a-trust-gate")
+        return
+    bad = unreachable_without(prog, body, [gate], targets)
+    if bad:
+        rep.violation("a-bypass:%s" % key, "bucket reader %s can %s without its checksum having matched" % (where, what),
+                      loc=loc, config=cfg, rule="a-trust-gate", witness=witness_str(body, bad[0][1]))
+    else:
+        rep.ob(cfg, "a-trust-gate", key, "%s: JSON is parsed only on the equal edge of SHA-256-hex(fields[1]) vs fields[0]" % where)
+    # exactly two fields, split on a tab
+    lg = None
+    for b in body.blocks:
+        tu = b.term
+        if b.cleanup or tu.k != "switch" or tu.discr.place is None:
+            continue
+        for o in prog.resolve_pl(body, tu.discr.place, IDENT):
+            if o.kind == "binop" and o.info.j["op"] == "Eq":
+                vals = []
+                for x in o.info.ops:
+                    for y in prog.resolve_op(body, x, IDENT, o.blk):
+                        vals.append(y)
+                has2 = any(y.kind == "const" and y.info.const_val == 2 for y in vals)
+                haslen = any(y.kind == "unop" and y.info.j["op"] == "PtrMetadata" for y in vals) or \
+                    any(y.kind == "call" and y.callee is not None and y.callee.path.endswith("::len") for y in vals)
+                if has2 and haslen:
+                    lg = Gate(body, (b.i, switch_target(tu, 1)), "field count == 2", b.i)
+    if lg is not None and not unreachable_without(prog, body, [lg], targets):
+        rep.ob(cfg, "a-two-fields", key, "%s requires exactly two tab-separated fields" % where)
+    else:
+        rep.violation("a-fields:%s" % key, "bucket reader %s does not require a line to have exactly two fields" % where,
+                      loc=loc, config=cfg, rule="a-trust-gate")
+    sep = None
+    for blk, t in body.calls():
+        if t.callee is not None and t.callee.path == "core::str::<impl str>::split" and len(t.args) > 1 and t.args[1].is_const:
+            sep = t.args[1].const_val
+    if sep == "\t":
+        rep.ob(cfg, "a-separator", key, "fields are split on TAB")
+    else:
+        rep.violation("a-separator:%s" % key, "bucket reader %s splits fields on %r instead of TAB" % (where, sep),
+                      loc=loc, config=cfg, rule="a-trust-gate")
